@@ -37,7 +37,7 @@ NO_MATMUL_F64 = {'simde512'}     # simd_op_t<simde_avx512_t,double>::fmadd does 
 # lhs: known finding matmul.column-major-lhs).  Set to True once fixes/C12-matmul-lhs-layout-fallback.diff is applied:
 # the harness then also builds column-major lhs x row-major rhs, the model is asked with fallback=1 and the
 # column-major-lhs cases are in-domain (simdEvalMatmul_repaired_eq_scalar).
-MATMUL_LHS_FALLBACK_REPAIRED = False
+MATMUL_LHS_FALLBACK_REPAIRED = True     # fix commit 8eebbc3 in /repo
 import os as _os
 if _os.environ.get('C12_MATMUL_LHS_FALLBACK') in ('0', '1'):      # try-out knob: VERIF_REPO=<repaired tree> C12_MATMUL_LHS_FALLBACK=1 ./check C12
     MATMUL_LHS_FALLBACK_REPAIRED = _os.environ['C12_MATMUL_LHS_FALLBACK'] == '1'
